@@ -186,6 +186,24 @@ func (a *accounting) str(goType, field string, want string, n *oracle.Node, exac
 	if exact && n.Str != want {
 		a.add(goType, field, "string-altered", cls, fmt.Sprintf("the string decodes to %q, the value holds %q", n.Str, want))
 	}
+	// a string that is not valid UTF-8 cannot come back byte for byte (JSON text is UTF-8): whatever replacement policy the
+	// writer follows, the valid runes must come back unchanged, in order, once
+	if !exact && validRunes(n.Str) != validRunes(want) {
+		a.add(goType, field, "string-altered", cls, fmt.Sprintf("the string decodes to %q, the value holds %q: apart from the bytes that are not UTF-8 the text differs", n.Str, want))
+	}
+}
+
+// validRunes drops the bytes that are not part of a valid UTF-8 sequence, and U+FFFD itself.
+func validRunes(s string) string {
+	var b strings.Builder
+	for i := 0; i < len(s); {
+		r, size := utf8.DecodeRuneInString(s[i:])
+		if r != utf8.RuneError {
+			b.WriteRune(r)
+		}
+		i += size
+	}
+	return b.String()
 }
 
 // item accounts for one item position.
@@ -463,8 +481,9 @@ func c02Check(writer string, x interface{}) (ds []keyed, out []byte) {
 	if perr != nil {
 		return []keyed{{fmt.Sprintf("json-out %s invalid-json chars=%s", gt, worst), fmt.Sprintf("%v: %s", perr, clipBytes(b, 500))}}, b
 	}
-	if !validUTF8 && worst != "nonutf8" {
-		ds = append(ds, keyed{fmt.Sprintf("json-out %s invalid-utf8-output chars=%s", gt, worst), "the output is not valid UTF-8 although every string of the value is: " + clipBytes(b, 300)})
+	if !validUTF8 {
+		// RFC 8259 section 8.1: JSON text is UTF-8, whatever bytes the value's strings hold
+		ds = append(ds, keyed{fmt.Sprintf("json-out %s invalid-utf8-output chars=%s", gt, worst), "the output is not valid UTF-8: " + clipBytes(b, 300)})
 	}
 	sort.Strings(dups)
 	for _, d := range dups {
